@@ -24,7 +24,7 @@ RULE = ("one case = one complete Simulator.run(): 1-6 stations (EVSE / DeadbandE
         "120/208/240/277), period 1/5/15, sessions per station with back-to-back reuse and gaps, Battery / "
         "Linear2StageBattery continuous / stepwise (noise 0 and, with a patched np.random.normal, noise > 0) at initial "
         "SoC around every regime boundary, scripted scheduler (max_recompute 1 / k / None, multi-period schedules, "
-        "non-zero pilots addressed to vacant stations); ~10% malformed histories (one invalid pilot / a session plugged into an occupied station / an unregistered station): run() aborts and the model must fail at exactly that operation. "
+        "non-zero pilots addressed to vacant stations); a quarter of the runs on contrib StochasticNetwork (random assignment, waiting queue, swaps, early departure; attach/detach logged per EVSE); ~10% malformed histories (one invalid pilot / a session plugged into an occupied station / an unregistered station): run() aborts and the model must fail at exactly that operation. "
         "Distinct = distinct (network, sessions, pilot script); non-trivial = at least one period delivers energy")
 ASSUMPTIONS = ["theorems are over R (exact arithmetic); the implementation computes in IEEE doubles (values compared to 1e-9 relative)",
                "every session id is plugged at most once (C01) and station ids are distinct",
@@ -72,9 +72,11 @@ class NoiseScript:
         return v
 
 
-def run_history(inp, extra=None):
+def run_history(inp, extra=None, midrun=None):
     """Run the real Simulator on the history `inp`; returns the recorded ops and observables.
-    `extra(sim, station_ids, sess_num)` (optional) is evaluated on the finished simulator (used by C18)."""
+    `extra(sim, station_ids, sess_num)` (optional) is evaluated on the finished simulator (used by C18);
+    `midrun(sim, station_ids, sess_num)` (optional) is evaluated from inside the scheduling algorithm, every time
+    it is invoked while the run is in progress (results in out["midrun"])."""
     import numpy as np
     from datetime import datetime
     from acnportal import acnsim
@@ -91,19 +93,27 @@ def run_history(inp, extra=None):
     draw_log = []
     flags = dict(ambiguous=False)
 
-    class RecNet(ChargingNetwork):
+    stochastic = inp.get("net_class") == "stochastic"
+
+    def batt_desc(ev):
+        b = ev._battery
+        return dict(kind=ev_batt_kind[ev.session_id], cap=b._capacity, cur=b._current_charge,
+                    pow=b._current_charging_power, maxp=b._max_power,
+                    noise=getattr(b, "_noise_level", 0), tsoc=getattr(b, "_transition_soc", 0))
+
+    class Recording:
+        # plain ChargingNetwork: plugin / unplug are logged at the network entry points (so KeyError /
+        # StationOccupiedError paths are part of the recorded sequence).
         def plugin(self, ev, station_id=None):
-            b = ev._battery
-            ops.append(["plugin", station_ids.index(ev.station_id) if ev.station_id in station_ids else -1,
-                        sess_num[ev.session_id],
-                        dict(kind=ev_batt_kind[ev.session_id], cap=b._capacity, cur=b._current_charge,
-                             pow=b._current_charging_power, maxp=b._max_power,
-                             noise=getattr(b, "_noise_level", 0), tsoc=getattr(b, "_transition_soc", 0))])
+            if not stochastic:
+                ops.append(["plugin", station_ids.index(ev.station_id) if ev.station_id in station_ids else -1,
+                            sess_num[ev.session_id], batt_desc(ev)])
             return super().plugin(ev)
 
         def unplug(self, station_id, session_id=None):
-            ops.append(["unplug", station_ids.index(station_id) if station_id in station_ids else -1,
-                        sess_num[session_id]])
+            if not stochastic:
+                ops.append(["unplug", station_ids.index(station_id) if station_id in station_ids else -1,
+                            sess_num[session_id]])
             return super().unplug(station_id, session_id)
 
         def update_pilots(self, pilots, i, period):
@@ -122,10 +132,36 @@ def run_history(inp, extra=None):
 
         def post_charging_update(self):
             occ.append([None if e.ev is None else sess_num[e.ev.session_id] for e in self._EVSEs.values()])
+            return super().post_charging_update()
 
-    net = RecNet()
-    for sid, st in zip(station_ids, inp["stations"]):
-        net.register_evse(make_evse(sid, tuple(st["kind"])), st["voltage"], st.get("phase", 0))
+    if stochastic:
+        # the contrib subclass (random space assignment, waiting queue, swaps, early departure) detaches and
+        # attaches EVs through the EVSE objects directly: there the attach / detach calls are logged per EVSE
+        import random as _random
+        from acnportal.contrib.acnsim import StochasticNetwork
+
+        class RecNet(Recording, StochasticNetwork):
+            pass
+        _rand_state = _random.getstate()
+        _random.seed(inp.get("rand_seed", 0))
+        net = RecNet(early_departure=bool(inp.get("early_departure")))
+    else:
+        class RecNet(Recording, ChargingNetwork):
+            pass
+        net = RecNet()
+    for k, (sid, st) in enumerate(zip(station_ids, inp["stations"])):
+        evse = make_evse(sid, tuple(st["kind"]))
+        if stochastic:
+            def _plugin(ev, _orig=evse.plugin, _k=k):
+                ops.append(["plugin", _k, sess_num[ev.session_id], batt_desc(ev)])
+                return _orig(ev)
+
+            def _unplug(_orig=evse.unplug, _k=k, _evse=evse):
+                if _evse.ev is not None:
+                    ops.append(["unplug", _k, sess_num[_evse.ev.session_id]])
+                return _orig()
+            evse.plugin, evse.unplug = _plugin, _unplug
+        net.register_evse(evse, st["voltage"], st.get("phase", 0))
 
     for c in inp.get("constraints", []):
         from acnportal.acnsim.network.current import Current
@@ -168,11 +204,14 @@ def run_history(inp, extra=None):
 
         def schedule(self, active_sessions):
             t = self.interface.current_time
+            if midrun is not None:
+                mid_results.append(midrun(self.interface._simulator, station_ids, sess_num))
             if t >= len(script):
                 return {}
             ent = script[t]
             return {station_ids[int(k)]: list(v) for k, v in ent.items()}
 
+    mid_results = []
     old_normal = battery_mod.np.random.normal
     battery_mod.np.random.normal = noise
     err = None
@@ -198,6 +237,7 @@ def run_history(inp, extra=None):
                 bj = [v for v in d["context_dict"].values() if "Battery" in v["class"]][0]["attributes"]
                 sess.append(dict(sid=sess_num[name],
                                  station=station_ids.index(ev.station_id) if ev.station_id in station_ids else -1,
+                                 plugged=any(o[0] == "plugin" and o[2] == sess_num[name] for o in ops),
                                  energy=float(ev.energy_delivered), charge=float(ev._battery._current_charge),
                                  charge_json=float(bj["_current_charge"]), init=float(ev._battery._init_charge),
                                  rate=float(ev.current_charging_rate), requested=float(ev.requested_energy)))
@@ -210,8 +250,11 @@ def run_history(inp, extra=None):
                 out["total"], out["agg_current"], out["agg_power"] = 0.0, [], []
             if extra is not None and err is None:
                 out["extra"] = extra(sim, station_ids, sess_num)
+            out["midrun"] = mid_results
     finally:
         battery_mod.np.random.normal = old_normal
+        if stochastic:
+            _random.setstate(_rand_state)
     return out
 
 
@@ -272,6 +315,16 @@ def gen_history(rng, tier, force=None):
             sessions.append(dict(station=s, arrival=t, departure=t + dur,
                                  requested=round(rng.uniform(0.1, max(0.2, b["cap"] - b["init"])), 3), battery=b))
             t = t + dur + (0 if rng.random() < 0.5 else rng.randint(1, 3))
+    # a quarter of the histories run on the contrib subclass StochasticNetwork (random free station, waiting
+    # queue, swaps, optional early departure): it attaches / detaches EVs through the EVSEs directly.  Extra
+    # overlapping sessions create queueing; sessions still draw current when they leave, stations stay vacant after
+    stoch = force == "stochastic" or (force is None and rng.random() < 0.25)
+    if stoch:
+        for _ in range(rng.randint(0, 3)):
+            t = rng.randint(0, H)
+            b = rand_battery(rng, noisy)
+            sessions.append(dict(station=rng.randrange(n), arrival=t, departure=t + rng.randint(1, 5),
+                                 requested=round(rng.uniform(0.1, max(0.2, b["cap"] - b["init"])), 3), battery=b))
     rng.shuffle(sessions)
     last = max([s["departure"] for s in sessions], default=0)
     mode = rng.random()
@@ -290,7 +343,7 @@ def gen_history(rng, tier, force=None):
             ent = {}
         script.append(ent)
     bad = None
-    if (force == "invalid") or (force is None and rng.random() < 0.05 and last > 0):
+    if (force == "invalid") or (force is None and not stoch and rng.random() < 0.05 and last > 0):
         t = rng.randint(0, last)
         s = rng.randrange(n)
         script[t][str(s)] = [float(invalid_pilot(stations[s]["kind"]))] * max(
@@ -308,20 +361,23 @@ def gen_history(rng, tier, force=None):
                     script[t][k] = (script[t][k] + [0.0] * L)[:L]
     # malformed histories (the run must abort, the model must return None at the same point):
     # a session plugged into an occupied station / into a station that is not registered
-    if force == "overlap" or (force is None and bad is None and sessions and rng.random() < 0.03):
+    if force == "overlap" or (force is None and not stoch and bad is None and sessions and rng.random() < 0.03):
         if sessions:
             s0 = rng.choice(sessions)
             b = rand_battery(rng, False)
             t = rng.randint(s0["arrival"], s0["departure"] - 1)
             sessions.append(dict(station=s0["station"], arrival=t, departure=t + 2, requested=1.0, battery=b))
             bad = ["overlap", s0["station"]]
-    elif force == "unknown" or (force is None and bad is None and sessions and rng.random() < 0.02):
+    elif force == "unknown" or (force is None and not stoch and bad is None and sessions and rng.random() < 0.02):
         b = rand_battery(rng, False)
         sessions.append(dict(station=-1, arrival=rng.randint(0, last), departure=last + 1, requested=1.0, battery=b))
         bad = ["unknown-station", -1]
     draws = [round(rng.gauss(0, 1), 4) for _ in range(17)] if noisy else []
-    return dict(stations=stations, period=period, sessions=sessions, script=script,
-                max_recompute=max_recompute, noise_draws=draws, bad=bad)
+    out = dict(stations=stations, period=period, sessions=sessions, script=script,
+               max_recompute=max_recompute, noise_draws=draws, bad=bad)
+    if stoch:
+        out.update(net_class="stochastic", rand_seed=rng.randint(0, 10**6), early_departure=rng.random() < 0.4)
+    return out
 
 
 # ------------------------------------------------------------------------------------------------
@@ -373,7 +429,7 @@ def case_coq(inp, impl):
         coq_list([coq_list([coq_opt(x, zlit) for x in row]) for row in impl["occ"]]),
         q(impl["peak"]),
         coq_list(["(%s, (%s, %s, %s, %s))" % (zlit(s["sid"]), q(s["energy"]), q(s["charge"]), q(s["charge_json"]), q(s["rate"]))
-                  for s in impl["sessions"]]),
+                  for s in impl["sessions"] if s.get("plugged", True)]),
         q(impl["total"]), coq_list([q(x) for x in impl["agg_current"]]), coq_list([q(x) for x in impl["agg_power"]]))
 
 
@@ -381,9 +437,9 @@ def make_case(inp):
     impl = run_history(inp)
     delivered = any(s["energy"] != 0 for s in impl["sessions"])
     nb = sum(1 for s in inp["sessions"] if s["battery"]["kind"] != "ideal")
-    kind = "%s/%s/%s" % ("ok" if impl["ok"] else "abort:" + str(impl["error"]),
-                         "noisy" if inp.get("noise_draws") else "noiseless",
-                         "mr=%s" % inp["max_recompute"])
+    kind = "%s/%s/%s%s" % ("ok" if impl["ok"] else "abort:" + str(impl["error"]),
+                           "noisy" if inp.get("noise_draws") else "noiseless",
+                           "mr=%s" % inp["max_recompute"], "/stochastic" if inp.get("net_class") == "stochastic" else "")
     return dict(input=inp, impl={k: v for k, v in impl.items()}, coq=case_coq(inp, impl), ambiguous=bool(impl.get("ambiguous")),
                 kind=kind, sig=[inp["stations"], inp["sessions"], inp["script"], inp["period"]],
                 nontrivial=delivered)
@@ -405,7 +461,7 @@ def pmap(fn, items, workers=8):
 
 
 def gen_cases(rng, n, tier):
-    inputs = [gen_history(rng, tier, {3: "invalid", 5: "overlap", 7: "unknown"}.get(k)) for k in range(n)]
+    inputs = [gen_history(rng, tier, {3: "invalid", 5: "overlap", 7: "unknown", 9: "stochastic"}.get(k)) for k in range(n)]
     return pmap(make_case, inputs)
 
 
@@ -434,6 +490,12 @@ def monitor(case):
             if o is None and r != 0:
                 return "station %d is vacant in period %d but its recorded rate is %r" % (s, t, r)
     for s in impl["sessions"]:
+        if not s.get("plugged", True):
+            # a session that waited in the queue and never got a station: nothing delivered, battery untouched
+            if s["energy"] != 0 or s["charge"] != s["init"]:
+                return "session %d was never connected but reports energy %r / charge gain %r" % (
+                    s["sid"], s["energy"], s["charge"] - s["init"])
+            continue
         led = sum(F(rates[t][k]) * F(volts[k]) / 1000 * F(T) / 60
                   for t in range(len(rates)) for k in range(len(volts)) if occ[t][k] == s["sid"])
         if not close(s["energy"], float(led)):
